@@ -5,13 +5,17 @@
     [GH.Model.Verify.Verify]), the clock, and the getter [get]. The getter is an
     oracle indexed by the number of the request (0, 1, 2, ... within one
     bifurcation) and the asked height: [get i h = None] is an error of
-    GetByHeight, [Some x] a header -- of ANY height, the code does not compare
-    it with the asked one. Definitions only; proofs are in Proofs/BifurcateP.v. *)
+    GetByHeight, [Some x] a header -- of ANY height: the getter is not trusted to
+    answer with the asked height, verifyBifurcating compares the two and refuses
+    the candidate when they differ (fix F30; before it the loop could spin forever).
+    Definitions only; proofs are in Proofs/BifurcateP.v. *)
 From GH Require Import Base.Prelude Model.Verify.
 
 (** why a candidate was refused (= which [return err] of the code was taken) *)
 Inductive bfail :=
 | FGetter                 (* GetByHeight failed: fmt.Errorf("bifurcation: getting candidate ... %w") *)
+| FHeight                 (* GetByHeight answered with a (non-zero) header of another height than asked:
+                             fmt.Errorf("bifurcation: getter returned a header at height %d for height %d") *)
 | FCandidate (e : verr)   (* an intermediate failed with a hard VerifyError: that error, as is *)
 | FNewHead (e : verr)     (* diff <= 1: "bifurcation: new head failed: %w" around the last error *)
 | FDirect (e : verr).     (* Syncer.verify: direct verification failed and the failure is not soft *)
@@ -42,6 +46,9 @@ Fixpoint bifurcate (fuel i : nat) (subj new : hdr) (diff : N) : brun :=
     match get i ch with
     | None => BRun (Refuse FGetter) [call] []
     | Some c =>
+      (* if !candidateHeader.IsZero() && candidateHeader.Height() != candidateHeight { return fmt.Errorf(...) }
+         (a zero header goes on to Verify, which fails hard with ErrZeroHeader) *)
+      if negb (h_nil c) && negb (h_height c =? ch) then BRun (Refuse FHeight) [call] [] else
       match Verify now drift tv subj c with
       | Some e =>
         if ve_soft e
@@ -98,8 +105,8 @@ End bifurcate.
     strictly higher than the previous subjective head), else the old head *)
 Definition head_after (subj : hdr) (r : brun) : hdr := last (b_promoted r) subj.
 
-(** number of loop iterations (= getter requests) that always suffices for distance [D]
-    when the getter answers with the asked heights: (D+1) * (bits(D)+1) *)
+(** number of loop iterations (= getter requests) that always suffices for distance [D],
+    whatever the getter answers: (D+1) * (bits(D)+1) *)
 Definition bound (D : N) : N := (D + 1) * (N.size D + 1).
 Definition fuel_bound (D : N) : nat := N.to_nat (bound D).
 
